@@ -1,7 +1,7 @@
 """C03 — mutex: mutual exclusion and hand-off without lost or duplicated wake-ups (structural part)."""
 from core import strip, is_field, key_str, key_mentions, order_ge
 from facts import AnalysisBroken
-from rules import (nodeset, callpred, ev, Unevaluable, forced_edges, atom_from, one, some, reach, atomic_ops,
+from rules import (check_init, nodeset, callpred, ev, Unevaluable, forced_edges, atom_from, one, some, reach, atomic_ops,
                    ret_const, is_param_load, is_var_load, field_of)
 import stale
 
@@ -249,3 +249,4 @@ def run(ctx):
     check_unlock(ctx, P)
     check_handoff(ctx, P)
     check_consumer(ctx, P)
+    check_init(ctx, P, "fiber_mutex_init", [("fiber_mutex", "counter", 1)], calls=["mpsc_fifo_init"])
